@@ -444,3 +444,52 @@ func checkOptionErrorRefusesConstruction(c *Ctx, rule string) {
 	}
 	c.floor(rule, 1)
 }
+
+// checkOnlyEOFEndsListing (C16.R23, shared as C05.R18): the only error ReadDir turns into success is io.EOF.  Every
+// way the error result of ReadDirContext becomes the nil constant behind the listing loop is selected by a comparison
+// with io.EOF (== or errors.Is) found true.  Any other error mapped to nil — a directory removed while it is read
+// answers NO_SUCH_FILE — makes a failed listing look like a complete, shorter one.
+func checkOnlyEOFEndsListing(c *Ctx, rule string) {
+	p := c.P
+	fn := p.Func("(*Client).ReadDirContext")
+	if fn == nil {
+		c.missing(rule, "(*Client).ReadDirContext")
+		return
+	}
+	c.looked(fnName(fn))
+	isEOF := func(v ssa.Value) bool {
+		u, ok := v.(*ssa.UnOp)
+		if !ok {
+			return false
+		}
+		g, ok := u.X.(*ssa.Global)
+		return ok && g.Name() == "EOF" && g.Pkg != nil && g.Pkg.Pkg.Path() == "io"
+	}
+	n := 0
+	for _, lf := range returnLeavesDeep(fn, 1) {
+		if !isNilConst(lf.v) || lf.pred == nil {
+			continue
+		}
+		n++
+		good := false
+		for cond, val := range edgeConds(lf.block, lf.pred) {
+			if !val {
+				continue
+			}
+			switch x := cond.(type) {
+			case *ssa.BinOp:
+				if x.Op.String() == "==" && (isEOF(x.X) || isEOF(x.Y)) {
+					good = true
+				}
+			case *ssa.Call:
+				if callIs(&x.Call, "errors.Is") && len(x.Call.Args) == 2 && isEOF(x.Call.Args[1]) {
+					good = true
+				}
+			}
+		}
+		c.check(good, rule, fmt.Sprintf("nil error of ReadDirContext, way #%d", n), p.Pos(fn.Pos()),
+			"selected by a comparison with io.EOF",
+			"the error of the listing is replaced by nil on a way that is not selected by a comparison with io.EOF: a listing that failed is reported as complete")
+	}
+	c.floor(rule, 1)
+}
